@@ -5,6 +5,10 @@ SigPool == {S(<<>>, <<"i32">>), S(<<"i32">>, <<"i32">>), S(<<"i32", "i64">>, <<"
             S(<<"i64", "f32">>, <<"f32", "i32">>), S(<<"v128">>, <<"v128">>), S(<<"i32", "i32", "i32">>, <<>>)}
 ScalarOps == {o \in OpSig : "v128" \notin {o.pop[i] : i \in 1..Len(o.pop)} \cup {o.push[i] : i \in 1..Len(o.push)}}
 VecOps == OpSig \ ScalarOps
+(* every memory instruction plus the little arithmetic that address computation and value production need *)
+MemOps == {o \in OpSig : o.imm \in {"mem1", "mem2", "mem4", "mem8", "mem16", "memlane1", "memlane2", "memlane4", "memlane8"}}
+          \cup {o \in OpSig : o.op \in {"i32.add", "i32.and", "i32.eqz", "i32.lt_u", "i64.add", "i64.ne", "i32.wrap_i64", "i64.extend_i32_u", "f32.add", "f64.add",
+                                        "i8x16.add", "v128.not", "memory.size", "memory.grow"}}
 (* one operation per signature class, for exhaustive enumeration of short bodies *)
 ClassOps == {o \in ScalarOps : o.op \in {"i32.const", "i64.const", "f32.const", "f64.const", "i32.add", "i64.mul", "f32.div", "f64.sqrt", "i32.eqz",
                                         "i64.lt_s", "f64.ge", "i32.wrap_i64", "i64.extend_i32_u", "f32.demote_f64", "i32.trunc_f32_s", "i32.load", "i64.store"}}
